@@ -29,33 +29,33 @@ func (t *WeightedMerkleTrie) GetPath(keys [][]byte) ([]byte, error) {
 		}
 	}
 
-	if len(keys) > 10 {
+	// the parallel collection fans out over the children of a branch root; any
+	// other root kind is walked sequentially
+	if node, ok := t.root.(*routingNode); ok && len(keys) > 10 {
 		eg, _ := errgroup.WithContext(context.TODO())
 		eg.SetLimit(5)
-		if node, ok := t.root.(*routingNode); ok {
-			node.toCollect = true
-			var branchMu = [16]sync.Mutex{}
-			for i := 0; i < len(keys); i++ {
-				ind := i
-				eg.Go(func() error {
-					k := keybytesToHex(keys[ind])
-					branchMu[k[0]].Lock()
-					defer branchMu[k[0]].Unlock()
-					child, err := t.markToCollect(node.Children[k[0]], k, 1)
-					if err != nil {
-						if errors.Is(err, ErrKVNotFound) {
-							err = ErrNotFound
-						}
-						return err
+		node.toCollect = true
+		var branchMu = [16]sync.Mutex{}
+		for i := 0; i < len(keys); i++ {
+			ind := i
+			eg.Go(func() error {
+				k := keybytesToHex(keys[ind])
+				branchMu[k[0]].Lock()
+				defer branchMu[k[0]].Unlock()
+				child, err := t.markToCollect(node.Children[k[0]], k, 1)
+				if err != nil {
+					if errors.Is(err, ErrKVNotFound) {
+						err = ErrNotFound
 					}
-					node.Children[k[0]] = child
-					return nil
-				})
-			}
-			err := eg.Wait()
-			if err != nil {
-				return nil, err
-			}
+					return err
+				}
+				node.Children[k[0]] = child
+				return nil
+			})
+		}
+		err := eg.Wait()
+		if err != nil {
+			return nil, err
 		}
 	} else {
 		for _, key := range keys {
